@@ -68,8 +68,43 @@ def fnUse : PyVal → Option (FnUse (List PyVal) PyVal)
     else (fnBinding b cell cfg).map fun _ => ⟨fun c => (fnBinding b cell c).getD .none, cfg, n.toNat⟩
   | _ => none
 
+/-- a run-length column over elements that are all of one dtype already -/
+def doRle (xs : List PyVal) (k : PyVal) : List PyVal :=
+  let e := rleEncode (pyEq i2fNative) xs
+  [.list e.values, nats e.lengths, .list (rleDecode e), k]
+
+def doDict (xs : List PyVal) (k : PyVal) : List PyVal :=
+  -- numpy.unique sorts an object array with Python's `<`: any comparison with None raises
+  if xs.any isNull && xs.length ≥ 2 then [err "TypeError"]
+  else
+    let e := dictEncode pyLe xs
+    [.list e.values, nats e.codes, optList (dictDecode e), k]
+
+def doSparse (xs : List PyVal) (d : PyVal) (vdt : DType) : Option (List PyVal) := do
+  let e := sparseEncode (pyNe i2fNative) d xs
+  let (rt, out) ← sparseMaterialize i2fNative d vdt e
+  pure [nats e.indices, .list e.values, .int (Int.ofNat e.total), .str vdt.kind, .list out, .str rt.kind]
+
 def handle (op : String) (args : List PyVal) : Option (List PyVal) :=
   match op, args with
+  -- sequences mixing classes (`[2.0, 2]`, `[True, 1, 1.0]`).  `rle_mix`: the constructor sees the elements in
+  -- their own classes (a list, an object array): runs under Python's `==`, then the run values are brought to
+  -- one dtype (`numpy.array(run_values)`).  `*_cast`: the elements are brought to one dtype first
+  -- (`numpy.asarray` / `numpy.array` over the input in the dictionary and sparse constructors; an array input)
+  | "rle_mix", [.list xs] => do
+    let e := rleEncode (pyEq i2fNative) xs
+    let (rt, vs) ← unify i2fNative e.values
+    let e' : RLE PyVal := ⟨vs, e.lengths⟩
+    pure [.list vs, nats e.lengths, .list (rleDecode e'), .str rt.kind]
+  | "rle_cast", [.list xs] => do
+    let (rt, ys) ← unify i2fNative xs
+    pure (doRle ys (.str rt.kind))
+  | "dict_cast", [.list xs] => do
+    let (rt, ys) ← unify i2fNative xs
+    pure (doDict ys (.str rt.kind))
+  | "sparse_cast", [.list xs, d] => do
+    let (rt, ys) ← unify i2fNative xs
+    doSparse ys d rt
   -- a history of expansions of function columns: every expansion is that use's own binding on that use's own
   -- configuration, repeated to that use's length (`Enc.familyExpand`; `C09.gen_function_family_independent`
   -- identifies it with the translated `FunctionColumn.materialize` run on every use)
